@@ -191,6 +191,10 @@ class Director:
             else:
                 ok = script[it] if it < len(script) else (script[-1] if script else True)
             self.cval[actor.name] += 0.0 if ok else 1.0
+        elif hook in ("EveryNode", "BOC"):
+            # the coupled quantity also moves between time nodes (new node, new physics state):
+            # convergence must be judged against the value at the start of *this* iteration
+            self.cval[actor.name] += 100.0
         ret = None
         for i, st in self.by_key.get((self.life, actor.name, hook, cyc, node, it), ()):
             fn = self.ops.get(st["op"])
